@@ -9,7 +9,7 @@ Part I (identity pipeline): one press/release of every code through the real ste
 Part S (intercept set): random defsrc / deflayermap / process-unmapped-keys lists; Cfg.mapped_keys of the real
   parser is compared by TLC with P_C11.Intercept computed from the text-level description.
 """
-import re
+import re, threading
 from props.common import *
 from props.c13 import par_validate, tlc_ok
 
@@ -108,8 +108,9 @@ def gather_tables(wd):
             pos[n][kind] = x["mapped"][0] if len(x["mapped"]) == 1 else -2
             if kind == "src":
                 a = x["l0"][str(c)]
-                a = x["acts"][a] if isinstance(a, int) else a
-                pos[n]["act"] = a["kc"] if a.get("t") == "key" else -2
+                a = x["acts"][a - 1] if isinstance(a, int) else a          # action ids are 1-based
+                # mlft, mwu, ... written as an action are the documented mouse actions (action keywords): not applicable
+                pos[n]["act"] = a["kc"] if a.get("t") == "key" else (-1 if a.get("t") == "custom" else -2)
         elif kind == "exc":
             gone = sorted(pu_all - set(x["mapped"]))
             pos[n]["exc"] = gone[0] if len(gone) == 1 else (-1 if c not in pu_all and not gone else -2)
@@ -132,6 +133,316 @@ def gather_tables(wd):
     return {"kc": kc, "osc": osc, "t": t, "pos": list(pos.values()), "pu_all": sorted(pu_all), "parse_failures": nfail}
 
 
+# ------------------------------------------------------------------ part T, names under deflocalkeys
+# Every configuration position that takes a key name, observed through the real parser with and without a
+# deflocalkeys-linux block: KeyTables.T_LkPositions requires the code to be a function of (name, deflocalkeys) only.
+LAYER_POS = [("act", "%s"), ("fork", "(fork XX XX (%s))"),
+             ("swk", "(switch (%s) XX break)"), ("swh", "(switch ((key-history %s 1)) XX break)"),
+             ("swi", "(switch ((input real %s)) XX break)"), ("mac", "(macro %s)"), ("unmod", "(unmod %s)"),
+             ("relk", "(release-key %s)"), ("capsw", "(caps-word-custom 2000 (%s) (%s))"), ("osh", "(one-shot 5 %s)"),
+             ("modpfx", "A-%s")]
+POSITIONS = ["src"] + [p for p, _ in LAYER_POS] + ["lmap", "exc", "ovri", "ovro", "seq", "chv2"]
+NEW_NAMES = ["ì", "lkey90", "ü", "ñ", "<>", "k252", "ç", "hash", "º", "ß", "æ", "my_key", "²", "ö", "ğ", "´", "§", "å", "*", "~"]
+REJ = -3          # the parser rejected a configuration the documentation allows
+MISMATCH = -2     # the position holds something else than one key
+NA = -1           # not applicable / the atom is an action keyword there (mlft, mwu, ...: documented mouse actions)
+
+
+def lk_text(lk):
+    if not lk:
+        return ""
+    return "(deflocalkeys-linux %s)\n" % " ".join("%s %d" % (quote(n), c) for n, c in lk)
+
+
+def documented_blocks():
+    """the deflocalkeys-linux blocks of docs/locales.adoc of the working tree"""
+    p = os.path.join(REPO, "docs", "locales.adoc")
+    if not os.path.exists(p):
+        return []
+    s = open(p, encoding="utf-8").read()
+    out = []
+    for m in re.finditer(r"\(deflocalkeys-linux\b([^()]*)\)", s):
+        toks = []
+        for line in m.group(1).splitlines():
+            toks += line.split(";;")[0].split()
+        if len(toks) % 2 == 0 and toks and all(t.isdigit() for t in toks[1::2]):
+            lk = [(toks[i], int(toks[i + 1])) for i in range(0, len(toks), 2)]
+            if all(quote(n) == n for n, _ in lk) and lk not in out:
+                out.append(lk)
+    return out
+
+
+def lk_families(tier, rng, g):
+    """[(family, lk, [names to observe])]: lk = the deflocalkeys-linux block as [(name, code)]"""
+    t = g["t"]
+    builtin = {e["n"]: e["c"] for e in t["names"] if quote(e["n"])}
+    by_code = {}
+    for n, c in builtin.items():
+        by_code.setdefault(c, []).append(n)
+    mods = set(t["modifiers"])
+    osc_by_name = {e["n"]: e["v"] for e in g["osc"]}
+    pseudo = {osc_by_name[n] for n in ("KEY_RESERVED", "KEY_UNKNOWN", "KEY_MAX") if n in osc_by_name}
+    mouse = {builtin[n] for n, _ in BTN + WHEEL if n in builtin}
+    # target codes: ordinary keys that have a layout column (named or not)
+    pool = [c for c, _ in t["from"] if c < t["keys_in_row"] and c not in pseudo and c not in mods and c not in mouse
+            and c not in (30, 48, 251) and (c in by_code or 84 <= c <= 255)]     # 251 = the O-(..) marker of defseq
+    overridable = [n for n in ("+", "[", "]", "{", "}", "/", ";", "`", "=", "-", "'", ",", ".", "\\", "yen", "¥", "right", "grave")
+                   if n in builtin]
+    new = [n for n in NEW_NAMES if n not in builtin]
+    fams = [("base", [], sorted(builtin))]
+    # F1: every accepted name redefined on its own
+    for n in sorted(builtin):
+        c2 = rng.choice([c for c in pool if c != builtin[n]])
+        fams.append(("single", [(n, c2)], [n]))
+    # F1b: a new name on its own, mapped onto a code that has built-in names and onto one that has none
+    for n in new:
+        fams.append(("new", [(n, rng.choice(pool))], [n]))
+
+    def bystanders(lk, k):
+        names = {n for n, _ in lk}
+        out = []
+        for n, c in lk:                     # other spellings of a redefined key keep their meaning
+            if n in builtin:
+                out += [a for a in by_code[builtin[n]] if a not in names][:2]
+            out += [a for a in by_code.get(c, []) if a not in names][:1]     # the old names of the target code too
+        rest = [n for n in builtin if n not in names]
+        out += rng.sample(rest, k)
+        return [n for i, n in enumerate(out) if n not in out[:i]]
+    # F2: the documented blocks
+    for lk in documented_blocks():
+        lk = [(n, c) for n, c in lk if c in set(x for x, _ in t["from"]) and c < t["keys_in_row"]]
+        if lk:
+            fams.append(("documented", lk, [n for n, _ in lk] + bystanders(lk, 4)))
+    # F3: random blocks mixing the three classes of names; swaps and shared targets allowed
+    letters = [n for n in builtin if len(n) == 1 and n.isascii()]
+    for i in range(30 if tier == "quick" else 400):
+        k = rng.choice([2, 2, 3, 5, 8, 12])
+        names = []
+        for _ in range(k):
+            cls = rng.choice(["builtin", "builtin", "letter", "overridable", "new"])
+            cand = {"builtin": sorted(builtin), "letter": letters, "overridable": overridable, "new": new}[cls]
+            n = rng.choice(cand)
+            if n not in names:
+                names.append(n)
+        lk = []
+        for n in names:
+            mode = rng.choice(["pool", "pool", "swap", "same"])
+            if mode == "swap":               # the built-in code of another redefined name (z 21 y 44)
+                src = [builtin[m] for m in names if m in builtin and m != n and builtin[m] in pool]
+                c2 = rng.choice(src) if src else rng.choice(pool)
+            elif mode == "same" and lk:
+                c2 = lk[-1][1]
+            else:
+                c2 = rng.choice(pool)
+            lk.append((n, c2))
+        fams.append(("random", lk, names[:6] + bystanders(lk[:3], 2)))
+    return fams
+
+
+def pick_other(lk, exp, builtin):
+    """a plain key name for the neighbouring slot: not redefined, a code different from exp and from the block's targets"""
+    taken = {c for _, c in lk} | {exp}
+    names = {n for n, _ in lk}
+    for n in ("b", "a", "c", "d", "e", "f", "g", "h", "i", "j", "k", "l", "m"):
+        if n not in names and builtin.get(n) not in taken and n in builtin:
+            return n, builtin[n]
+    raise ToolError("no neighbour key for %r" % (lk,))
+
+
+def position_jobs(fams, g):
+    t = g["t"]
+    builtin = {e["n"]: e["c"] for e in t["names"]}
+    mods = set(t["modifiers"])
+    jobs, rows = [], []
+    jobs.append({"tag": ["pu", -1], "cfg": "(defcfg process-unmapped-keys yes)\n(defsrc)\n(deflayer l0)\n", "probe": []})
+    for fam, lk, names in fams:
+        L = lk_text(lk)
+        d = dict(lk)
+        for n in names:
+            qn = quote(n)
+            if qn is None:
+                continue
+            exp = d[n] if n in d else builtin.get(n)
+            if exp is None:
+                continue
+            o, oc = pick_other(lk, exp, builtin)
+            ri = len(rows)
+            rows.append({"n": n, "fam": fam, "lk": [{"n": a, "c": c} for a, c in lk], "exp": exp, "o": oc, "oname": o,
+                         "obs": {p: NA for p in POSITIONS}, "cfgs": {}})
+            layers = []
+            for p, tmpl in LAYER_POS:
+                if p == "modpfx" and qn != n:
+                    continue
+                layers.append((p, tmpl % ((qn, o) if p == "capsw" else qn)))
+            lay = L + "(defsrc %s)\n" % qn + "".join("(deflayer l%d %s)\n" % (i, a) for i, (_, a) in enumerate(layers))
+            jobs.append({"tag": ["lay", ri, [p for p, _ in layers]], "cfg": lay, "probe": [], "full": True})
+            jobs.append({"tag": ["lmap", ri], "cfg": L + "(defsrc)\n(deflayermap (l0) %s %s)\n" % (qn, o), "probe": [], "full": True})
+            jobs.append({"tag": ["exc", ri], "cfg": L + "(defcfg process-unmapped-keys (all-except %s))\n(defsrc)\n(deflayer l0)\n" % qn,
+                         "probe": []})
+            pair = (qn + " " + o) if exp in mods else qn          # defoverrides lists need exactly one non-modifier key
+            jobs.append({"tag": ["ovr", ri], "cfg": L + "(defsrc %s %s)\n(deflayer l0 %s %s)\n(defoverrides (%s) (%s) (%s) (%s))\n" %
+                         (qn, o, qn, o, pair, o, o, pair), "probe": [], "full": True})
+            jobs.append({"tag": ["seq", ri], "cfg": L + "(defsrc %s %s)\n(deflayer l0 %s %s)\n(defvirtualkeys v1 XX)\n(defseq v1 (%s))\n" %
+                         (qn, o, qn, o, qn), "probe": [], "full": True})
+            jobs.append({"tag": ["chv2", ri], "cfg": L + "(defcfg concurrent-tap-hold yes)\n(defsrc %s %s)\n(deflayer l0 %s %s)\n"
+                         "(defchordsv2 (%s %s) XX 50 all-released ())\n" % (qn, o, qn, o, qn, o), "probe": [], "full": True})
+            for j in jobs[-6:]:
+                rows[ri]["cfgs"][j["tag"][0]] = j["cfg"]
+    return jobs, rows
+
+
+def act_code(x, aid, pos, oc):
+    """the key code a parsed action holds in the place where the name was written (dump format of harness/src/dump.rs)"""
+    a = x["acts"][aid - 1]
+    t = a.get("t")
+    if pos == "act":
+        return a["kc"] if t == "key" else (NA if t == "custom" else MISMATCH)
+    if pos == "fork":
+        return a["trig"][0] if t == "fork" and len(a["trig"]) == 1 else MISMATCH
+    if pos in ("swk", "swh", "swi"):
+        if t != "switch" or len(a["cases"]) != 1:
+            return MISMATCH
+        ops = a["cases"][0]["ops"]
+        if pos == "swk":
+            return ops[0] if len(ops) == 1 and ops[0] < 0x1000 else MISMATCH
+        if pos == "swh":
+            return ops[0] & 0x0FFF if len(ops) == 1 and ops[0] >= 0x8000 else MISMATCH
+        return ops[1] & 0x03FF if len(ops) == 2 and ops[0] == 851 else MISMATCH
+    if pos == "mac":
+        if t not in ("seq", "rseq"):
+            return MISMATCH
+        evs = [e for e in a["evs"] if e["e"] in ("press", "release", "tap", "delay")]
+        if evs and evs[0]["e"] == "delay":
+            return NA                       # a number is a delay inside a macro
+        if not evs and any(e["e"] == "custom" for e in a["evs"]):
+            return NA                       # an action keyword (mouse actions)
+        ks = {e["kc"] for e in evs}
+        return ks.pop() if len(ks) == 1 else MISMATCH
+    if pos == "unmod":
+        cu = a.get("cu", [{}])
+        return cu[0]["keys"][0] if t == "custom" and cu[0].get("c") == "unmod" and len(cu[0]["keys"]) == 1 else MISMATCH
+    if pos == "relk":
+        return a["kc"] if t == "relkey" else MISMATCH
+    if pos == "capsw":
+        cu = a.get("cu", [{}])
+        return cu[0]["cap"][0] if t == "custom" and cu[0].get("c") == "capsword" and len(cu[0]["cap"]) == 1 else MISMATCH
+    if pos == "osh":
+        if t != "oneshot":
+            return MISMATCH
+        b = x["acts"][a["ac"] - 1]
+        return b["kc"] if b.get("t") == "key" else (NA if b.get("t") == "custom" else MISMATCH)
+    if pos == "modpfx":
+        return a["kcs"][1] if t == "mkeys" and len(a["kcs"]) == 2 and a["kcs"][0] == 56 else MISMATCH
+    return MISMATCH
+
+
+def gather_lk_rows(wd, g, tier, rng, fams=None):
+    fams = fams or lk_families(tier, rng, g)
+    jobs, rows = position_jobs(fams, g)
+    # interleave the blocks: the meaning of a name in one configuration must not depend on the configurations
+    # parsed before it (the custom name table is process-global state)
+    order = list(range(1, len(jobs)))
+    rng.shuffle(order)
+    jobs = [jobs[0]] + [jobs[i] for i in order]
+    nsh = 6
+    parts = [jobs[:1] + jobs[1:][i::nsh] for i in range(nsh)]
+    results = [None] * nsh
+    exc = []
+
+    def work(i):
+        try:
+            results[i] = harness_json("c11-parse", parts[i], wd, "lkpos%d" % i)
+        except Exception as e:      # re-raised below
+            exc.append(e)
+    th = [threading.Thread(target=work, args=(i,)) for i in range(nsh)]
+    for x in th:
+        x.start()
+    for x in th:
+        x.join()
+    if exc:
+        raise exc[0]
+    pu_all = None
+    for part in results:
+        for x in part:
+            if x["tag"][0] == "pu":
+                pu_all = set(x["mapped"])
+    nrej = [0]
+    retry = []
+
+    def take(x):
+        kind, ri = x["tag"][0], x["tag"][1]
+        if kind == "pu":
+            return
+        row = rows[ri]
+        obs, oc = row["obs"], row["o"]
+        if not x["ok"]:
+            nrej[0] += 1
+            if kind == "lay" and len(x["tag"][2]) > 1:
+                # one position at a time, to see which of them the parser does not accept
+                qn = quote(row["n"])
+                for p in x["tag"][2]:
+                    tmpl = dict(LAYER_POS)[p]
+                    retry.append({"tag": ["lay", ri, [p]], "probe": [], "full": True,
+                                  "cfg": lk_text([(e["n"], e["c"]) for e in row["lk"]]) + "(defsrc %s)\n(deflayer l0 %s)\n" %
+                                  (qn, tmpl % ((qn, row["oname"]) if p == "capsw" else qn))})
+                return
+            row.setdefault("rejected", {})[kind if kind != "lay" else x["tag"][2][0]] = x["err"][:200]
+            for p in (x["tag"][2] if kind == "lay" else ["ovri", "ovro"] if kind == "ovr" else [kind]):
+                obs[p] = REJ
+            return
+        m = x["mapped"]
+        if kind == "lay":
+            obs["src"] = m[0] if len(m) == 1 else MISMATCH
+            for i, p in enumerate(x["tag"][2]):
+                aid = x["layers"][i].get(str(m[0])) if len(m) == 1 else None
+                obs[p] = act_code(x, aid, p, oc) if aid else MISMATCH
+        elif kind == "lmap":
+            obs["lmap"] = m[0] if len(m) == 1 else MISMATCH
+        elif kind == "exc":
+            gone = sorted(pu_all - set(m))
+            obs["exc"] = gone[0] if len(gone) == 1 else MISMATCH
+        elif kind == "ovr":
+            ov = x["ovr"]
+            a = [e for e in ov if e["okc"] == oc and e["om"] == []]
+            b = [e for e in ov if e["ik"] == oc and e["im"] == []]
+            if len(ov) == 2 and len(a) == 1 and len(b) == 1:
+                obs["ovri"] = a[0]["im"][0] if len(a[0]["im"]) == 1 and a[0]["ik"] == oc else (a[0]["ik"] if not a[0]["im"] else MISMATCH)
+                obs["ovro"] = b[0]["om"][0] if len(b[0]["om"]) == 1 and b[0]["okc"] == oc else (b[0]["okc"] if not b[0]["om"] else MISMATCH)
+            else:
+                obs["ovri"] = obs["ovro"] = MISMATCH
+        elif kind == "seq":
+            ks = x["seq"] if isinstance(x["seq"], list) else []
+            obs["seq"] = ks[0]["k"][0] % 1024 if len(ks) == 1 and len(ks[0]["k"]) == 1 else MISMATCH
+        elif kind == "chv2":
+            ch = x["chv2"]
+            rest = [k for k in ch[0]["ks"] if k != oc] if len(ch) == 1 else []
+            obs["chv2"] = rest[0] if len(rest) == 1 and len(ch[0]["ks"]) == 2 else MISMATCH
+    for part in results:
+        for x in part:
+            take(x)
+    if retry:
+        for x in harness_json("c11-parse", retry, wd, "lkpos_retry"):
+            take(x)
+    # a position the parser does not accept for this name without any deflocalkeys either is a matter of syntax there
+    # (a digit is a delay inside a macro, ...): not applicable.  In defseq a modifier key is a prefix, not a key.
+    mods = set(g["t"]["modifiers"])
+    base = {r["n"]: r for r in rows if r["fam"] == "base"}
+    nsyntax = 0
+    for r in rows:
+        b = base.get(r["n"])
+        for p in POSITIONS:
+            if r["obs"][p] == REJ and (r is b or (b and b["obs"][p] in (REJ, NA) and b.get("syntax", {}).get(p))):
+                r.setdefault("syntax", {})[p] = True
+        if r["exp"] in mods:
+            r["obs"]["seq"] = NA
+    for r in rows:
+        for p in r.get("syntax", {}):
+            r["obs"][p] = NA
+            nsyntax += 1
+    return rows, {"blocks": len(fams), "configs_parsed": len(jobs), "rejected_configs": nrej[0], "positions_not_applicable_by_syntax": nsyntax,
+                  "by_family": {f: sum(1 for r in rows if r["fam"] == f) for f in sorted({r["fam"] for r in rows})}}
+
+
 MC_T = r"""---- MODULE MC_C11T ----
 EXTENDS KeyTables
 KcEnumDef == %(kc)s
@@ -141,6 +452,7 @@ NoneCountDef == %(none)d
 ConvFnDef == %(conv)s
 NamesDef == %(names)s
 NamePosDef == %(pos)s
+LkRowsDef == %(lkrows)s
 ====
 """
 CFG_T = """CONSTANT KcEnum <- KcEnumDef
@@ -150,6 +462,7 @@ CONSTANT NoneCount <- NoneCountDef
 CONSTANT ConvFn <- ConvFnDef
 CONSTANT Names <- NamesDef
 CONSTANT NamePos <- NamePosDef
+CONSTANT LkRows <- LkRowsDef
 INIT TInit
 NEXT TNext
 INVARIANT GlobalProbe
@@ -158,12 +471,14 @@ CHECK_DEADLOCK FALSE
 """
 
 
-def check_tables(wd, g):
+def check_tables(wd, g, lkrows=()):
     t = g["t"]
     conv = {str(r["c"]): {k: r[k] for k in r if k != "c"} for r in t["conv"]}
+    lk = [{"n": r["n"], "lk": r["lk"], "obs": [{"p": p, "v": r["obs"][p]} for p in POSITIONS]} for r in lkrows]
     text = MC_T % dict(kc=tla_val(g["kc"]), osc=tla_val(g["osc"]),
                        fromfn=tla_val({str(c): v for c, v in t["from"]}, "intmap"), none=t["none_count"],
-                       conv=tla_val(conv, "intmap"), names=tla_val(t["names"]), pos=tla_val(g["pos"]))
+                       conv=tla_val(conv, "intmap"), names=tla_val(t["names"]), pos=tla_val(g["pos"]),
+                       lkrows=tla_val(lk) if lk else "<<>>")
     open(os.path.join(wd, "MC_C11T.tla"), "w", encoding="utf-8").write(text)
     open(os.path.join(wd, "MC_C11T.cfg"), "w").write(CFG_T)
     r = run_tlc(wd, "MC_C11T", workers=2, timeout=900, heap="4g")
@@ -322,7 +637,14 @@ def check_intercept(wd, cases, g, name="c11s"):
 def replay(r, path, wd):
     g = gather_tables(wd)
     if r["kind"] == "c11tables":
-        _, errs, note = check_tables(wd, g)
+        rows = []
+        if "lk" in r:
+            lk = [(e["n"], e["c"]) for e in r["lk"]]
+            rows, _ = gather_lk_rows(wd, g, "quick", random.Random(1), [("base", [], [r["n"]]), ("replay", lk, [r["n"]])])
+            for row in rows:
+                print("%s under %s: %s" % (row["n"], lk_text([(e["n"], e["c"]) for e in row["lk"]]).strip() or "(no deflocalkeys)",
+                                           {p: v for p, v in row["obs"].items() if v != NA}))
+        _, errs, note = check_tables(wd, g, rows)
         for e in errs:
             print("REJECTED: %s" % json.dumps(e)[:400])
         if errs:
@@ -352,12 +674,30 @@ def run(tier, seed):
     wd = workdir("c11")
     # ---- part T
     g = gather_tables(wd)
-    r, terrs, note = check_tables(wd, g)
+    lkrows, lkstats = gather_lk_rows(wd, g, tier, random.Random(seed + 11))
+    r, terrs, note = check_tables(wd, g, lkrows)
     res.states += r["distinct"] or 0
     res.transitions += r["generated"] or 0
-    for e in terrs[:10]:
-        flow.classify(res, pid, e["req"], "C11 T: " + json.dumps(e)[:600],
-                      {"property": pid, "kind": "c11tables", "err": e}, "tables_%d" % len(res.violations))
+    nlk = 0
+    for e in terrs:
+        if "row" in e:
+            # one replay per (family, position set): the same slip shows in hundreds of rows
+            row = lkrows[e["row"] - 1]
+            nlk += 1
+            if nlk > 6:
+                continue
+            desc = "C11 T: %s: %s under %s denotes %s, but %s" % (
+                e["req"], row["n"], lk_text([(x["n"], x["c"]) for x in row["lk"]]).strip() or "(no deflocalkeys)", e["denotes"],
+                ", ".join("%s holds %s" % (d["p"], {REJ: "a rejection", MISMATCH: "something else"}.get(d["v"], d["v"]))
+                          for d in sorted(e["differs"], key=lambda d: d["p"])))
+            flow.classify(res, pid, e["req"], desc,
+                          {"property": pid, "kind": "c11tables", "n": row["n"], "lk": row["lk"], "cfgs": row["cfgs"], "err": desc},
+                          "lk_%d" % len(res.violations))
+        elif len(res.violations) < 16:
+            flow.classify(res, pid, e["req"], "C11 T: " + json.dumps(e)[:600],
+                          {"property": pid, "kind": "c11tables", "err": e}, "tables_%d" % len(res.violations))
+    log("[c11] names under deflocalkeys: %d rows (%s), %d configurations parsed, %d rows differ" %
+        (len(lkrows), lkstats["by_family"], lkstats["configs_parsed"], nlk))
     t = g["t"]
     tables_cov = {"u16_values_checked": 65536, "from_u16_some": len(t["from"]), "from_u16_none": t["none_count"],
                   "keycode_variants": len(g["kc"]), "oscode_variants": len(g["osc"]),
@@ -365,13 +705,19 @@ def run(tier, seed):
                   "name_positions_observed": sum(1 for p in g["pos"] for k in ("src", "act", "lmap", "exc", "ovr") if p[k] >= 0),
                   "name_position_parse_failures": g["parse_failures"],
                   "enum_values_unreachable_by_from_u16": note.get("unreachable", []),
-                  "pseudo_codes": note.get("pseudo", []), "requirement_failures": len(terrs)}
+                  "pseudo_codes": note.get("pseudo", []), "requirement_failures": len(terrs),
+                  "deflocalkeys": dict(lkstats, rows=len(lkrows), positions=POSITIONS, rows_differ=nlk,
+                                       positions_observed=sum(1 for r_ in lkrows for v in r_["obs"].values() if v >= 0))}
     log("[c11] tables: %d states, %d requirement failures, %d names, unreachable %s" %
         (r["distinct"], len(terrs), len(t["names"]), note.get("unreachable")))
     if note.get("unreachable"):
         res.notes.append("soft probe: OsCode variants %s have no from_u16 entry (from_u16 is not onto the enum); "
                          "they cannot enter or leave kanata, nothing observable depends on them" % note["unreachable"])
     res.samples.append({"name_positions": g["pos"][0], "conv": t["conv"][30]})
+    for fam in ("single", "documented"):
+        ex = [r_ for r_ in lkrows if r_["fam"] == fam]
+        if ex:
+            res.samples.append({"deflocalkeys_row": {k: ex[0][k] for k in ("n", "fam", "lk", "exp", "obs")}})
     # ---- part I
     jobs, params = identity_jobs(tier, rng, g)
     jobs = shard_local_index(jobs)
